@@ -447,7 +447,8 @@ func (c *c16) l2Histories(n, steps int) {
 				}
 			default:
 				if !w.endBlock() {
-					s = steps
+					s = steps // the chain halted (e.g. every validator was removed): the history ends, nothing to sample
+					continue
 				}
 			}
 			// sample this state?
